@@ -9,7 +9,7 @@ def run(R):
     rng = R.rng
     quick = R.tier == 'quick'
     R.rule = ('byte strings: catalogue vectors, all 65536 two-byte inputs (every table index under every preceding high byte), '
-              'every length 0..300 (quick) / 0..2000 (thorough) with random contents, 0x00/0xFF runs, long random buffers of odd and even length around 1k..64k (thorough: up to 1 MiB+1), alternating byte-order call sequences; '
+              'every length 0..300 (quick) / 0..2000 (thorough) with random contents, 0x00/0xFF runs, long random buffers of odd and even length around 1k..64k (thorough: up to 1 MiB+1), alternating byte-order call sequences, valid calls right after calls with invalid arguments, inputs built around every 2..8-byte constant of the library source; '
               'distinct = distinct input; non-trivial = non-empty input')
     R.assumptions = ['R6 bitwise CRCs validated on the catalogue check values 31C3 / E3069283']
     idx16, idx32 = set(), set()
@@ -86,6 +86,31 @@ def run(R):
         R.check(seq == want, 'crc32c-call-sequence', 'crc32c results depend on the calls made before (same data, alternating byte order)', {'data': d[:64], 'len': n})
         R.check([crc16(d), crc16(d + b'\x00'), crc16(b'\x00' + d), crc16(d)] == [crcref.crc16_xmodem(x).to_bytes(2, 'big') for x in (d, d + b'\x00', b'\x00' + d, d)],
                 'crc16-call-sequence', 'crc16 of data / data+00 / 00+data in sequence', {'data': d[:64], 'len': n})
+    # inputs that begin with, end with or are one of the library's own constants (bag-of-cells magics, TL ids, table entries): a checksum routine that special-cases
+    # a prefix it knows - a precomputed register for the BoC magic, say - is wrong exactly there
+    from lib import gen
+    magics = gen.magic_constants()
+    for i, c in enumerate(magics):
+        if i % R.nshards != R.shard:
+            continue
+        for d in (c, c + rng.randbytes(rng.choice([1, 4, 9, 40])), rng.randbytes(rng.choice([1, 3, 8])) + c):
+            one(d)
+            R.count('magic_constant_inputs')
+    # calls that fail (or not - their outcome is not judged) between valid ones: unknown byte order, data that is no byte string; the next valid call still
+    # depends on its own arguments only
+    bad_calls = [lambda d: crc32c(d, 'BIG'), lambda d: crc32c(d, 'middle'), lambda d: crc32c(d, None), lambda d: crc32c(d, 1), lambda d: crc32c('text'),
+                 lambda d: crc32c(None), lambda d: crc32c([300, 1]), lambda d: crc16('text'), lambda d: crc16(None), lambda d: crc16([1, 2, 70000]), lambda d: crc32c(d[:3] + b'x', 'BIG'),
+                 lambda d: crc32c(3.5), lambda d: crc16(object())]
+    for n in (0, 1, 9, 64, 300):
+        d = rng.randbytes(n)
+        w16, w32 = crcref.crc16_xmodem(d).to_bytes(2, 'big'), crcref.crc32c(d)
+        for bi, bad in enumerate(bad_calls):
+            st, _ = mon.call(bad, d)
+            R.cover('failed_call_outcomes', f'{bi}:{st}')
+            got = (crc32c(d), crc32c(d, 'big'), crc16(d), crc32c(b''), crc16(b''))
+            R.check(got == (w32.to_bytes(4, 'little'), w32.to_bytes(4, 'big'), w16, b'\x00' * 4, b'\x00' * 2), 'crc-after-failed-call',
+                    f'checksums of a {n}-byte input and of the empty input right after a call with invalid arguments (bad call #{bi}, outcome {st})', {'data': d[:64], 'len': n, 'bad_call': bi})
+            R.count('after_failed_call_cases')
     R.extra['table_indices_crc16'] = len(idx16)
     R.extra['table_indices_crc32c'] = len(idx32)
     R.counters['idx16'] = len(idx16)
